@@ -33,7 +33,7 @@ theorem replace_lsb0_mirror_partial (l old new : Bits) (start stop : Option Int)
     (hlen : l.length ≤ 8192) :
     replaceOp .lsb0 l old new start stop count ba
       = (replaceOp .msb0 l.reverse old.reverse new.reverse start stop count ba).map fun r => (r.1, r.2.reverse) := by
-  sorry
+  exact replaceOp_mirror l old new start stop count ba hlen
 
 /-! ### insert / overwrite / append / prepend / reverse -/
 
@@ -64,7 +64,7 @@ theorem byteswap_lsb0_mirror (l : Bits) (fmt : Option (List Int)) (start stop : 
       a + 8 * (zs.map Int.toNat).sum ≤ l.length) :
     byteswapOp .lsb0 l fmt start stop repeat_
       = (byteswapOp .msb0 l.reverse fmt start stop repeat_).map fun r => (r.1, r.2.reverse) := by
-  sorry
+  exact byteswapOp_mirror l fmt start stop repeat_ hfit
 
 /-! ### rotations and shifts: the direction is kept relative to the most significant end -/
 
@@ -78,7 +78,7 @@ theorem rol_ror_range_mirrored (l : Bits) (bits : Int) (start stop : Option Int)
 /-- whole-string rotation: the stored bits are rotated to the left by `rol` in both modes. -/
 theorem rol_whole_mode_independent (l : Bits) (bits : Nat) (h : l ≠ []) :
     rolOp .lsb0 l bits none none = .ok (l.rotateLeft bits) ∧ rolOp .msb0 l bits none none = .ok (l.rotateLeft bits) := by
-  sorry
+  exact rol_whole l bits h
 
 /-- `<<`, `>>`, `<<=`, `>>=` do not depend on the mode (they are written with `_absolute_slice`): the stored bits
     move towards the most significant end for `<<` in both modes … -/
